@@ -89,6 +89,16 @@ def gen(rng, tier):
         pwd = rbytes(rng, i)
         cs.append(Case("so_pwhash_str 2 %d %d %s %s" % (1 + i % 3, 8192 + 1024 * i, hx(pwd), hx(b"wrong")), cls="pwhash-string/libsodium-argon2id"))
         cs.append(Case("so_pwhash_str 1 %d %d %s %s" % (3 + i % 2, 8192 + 1024 * i, hx(pwd), hx(b"wrong")), cls="pwhash-string/libsodium-argon2i"))
+    # sealed boxes whose ephemeral public key is a NON-canonical encoding libsodium accepts (bit 255 set): parse → serialise is the
+    # identity on the wire bytes (the nonce is a hash of those very bytes), and the box opens — classic and object API, libsodium too
+    for n in (0, 1, 16, 40):
+        rsk, esk, msg = rbytes(rng, 32), rbytes(rng, 32), rbytes(rng, n)
+        rpk = refs.x25519_base(rsk)
+        epk = bytearray(refs.x25519_base(esk)); epk[31] |= 0x80; epk = bytes(epk)
+        sealed = epk + refs.box(rpk, esk, refs.seal_nonce(epk, rpk), msg)
+        cs.append(Case("box_seal_open %s %s %s %s" % (hx(rpk), hx(rsk), hx(sealed), hx(bytes([0xA5]) * n)), cls="sealed/high-bit-epk", expect="ok " + hx(msg)))
+        for cont in ("vec", "stack", "heap"):
+            cs.append(Case("boxobj_unseal %s %s %s %s" % (cont, hx(rpk), hx(rsk), hx(sealed)), cls="sealed/high-bit-epk-object", expect="ok " + hx(msg), meta={"no_spec": True}))
     # from_bytes / to_bytes with every container (the object-API ops of C01, incl. heap containers on nightly)
     for n in range(0, 34):
         key, nonce, msg = rbytes(rng, 32), rbytes(rng, 24), rbytes(rng, n)
